@@ -50,23 +50,25 @@ fn reg_ab() -> (StateRegistry<'static>, u32, u32) {
 #[cfg_attr(kani, kani::proof)] #[cfg_attr(kani, kani::unwind(5))]
 pub fn c02_readers_then_writer() {
     let (r, a, _b) = reg_ab();
-    let (o1, g1) = classify(r.try_borrow::<A>());
-    let (o2, g2) = classify(r.try_borrow::<A>());
-    assert!(o1 == Outcome::Granted && o2 == Outcome::Granted, "several shared guards must be granted");
-    assert!(g1.as_ref().unwrap().0 == a && g2.as_ref().unwrap().0 == a);
-    let (ow, gw) = classify(r.try_borrow_mut::<A>());
-    assert!(ow == Outcome::ConflictMut && gw.is_none(), "an exclusive guard must be refused while shared guards are alive");
-    // a guard on another type does not interfere
-    let (ob, gb) = classify(r.try_borrow_mut::<B>());
-    assert!(ob == Outcome::Granted, "guards for different types must not interfere");
-    drop(gb);
-    drop(g1);
-    let (ow2, _) = classify(r.try_borrow_mut::<A>());
-    assert!(ow2 == Outcome::ConflictMut, "one shared guard is still alive");
-    drop(g2);
-    let (ow3, gw3) = classify(r.try_borrow_mut::<A>());
-    assert!(ow3 == Outcome::Granted, "dropping the guards must make the state available again");
-    drop(gw3);
+    {
+        let (o1, g1) = classify(r.try_borrow::<A>());
+        let (o2, g2) = classify(r.try_borrow::<A>());
+        assert!(o1 == Outcome::Granted && o2 == Outcome::Granted, "several shared guards must be granted");
+        assert!(g1.as_ref().unwrap().0 == a && g2.as_ref().unwrap().0 == a);
+        let (ow, gw) = classify(r.try_borrow_mut::<A>());
+        assert!(ow == Outcome::ConflictMut && gw.is_none(), "an exclusive guard must be refused while shared guards are alive");
+        // a guard on another type does not interfere
+        let (ob, gb) = classify(r.try_borrow_mut::<B>());
+        assert!(ob == Outcome::Granted, "guards for different types must not interfere");
+        drop(gb);
+        drop(g1);
+        let (ow2, _) = classify(r.try_borrow_mut::<A>());
+        assert!(ow2 == Outcome::ConflictMut, "one shared guard is still alive");
+        drop(g2);
+        let (ow3, gw3) = classify(r.try_borrow_mut::<A>());
+        assert!(ow3 == Outcome::Granted, "dropping the guards must make the state available again");
+        drop(gw3);
+    }
     std::mem::forget(r);
 }
 
@@ -76,23 +78,25 @@ pub fn c02_readers_then_writer() {
 pub fn c02_writer_excludes_all() {
     let (r, a, b) = reg_ab();
     let x: u32 = sym();
-    let (o1, g1) = classify(r.try_borrow_mut::<A>());
-    assert!(o1 == Outcome::Granted);
-    let mut g1 = g1.unwrap();
-    assert!(g1.0 == a);
-    let (o2, _) = classify(r.try_borrow::<A>());
-    assert!(o2 == Outcome::ConflictImm, "a shared guard must be refused while the exclusive guard is alive");
-    let (o3, _) = classify(r.try_borrow_mut::<A>());
-    assert!(o3 == Outcome::ConflictMut, "a second exclusive guard must be refused");
-    let (o4, _) = classify(r.try_get_value::<A>());
-    assert!(o4 == Outcome::ConflictImm, "value reads go through the same flag");
-    assert!(r.set_value::<A>(x).is_none(), "set_value must not bypass the exclusive guard");
-    let (o5, g5) = classify(r.try_borrow::<B>());
-    assert!(o5 == Outcome::Granted && g5.unwrap().0 == b, "guards for different types must not interfere");
-    g1.0 = x;
-    drop(g1);
-    let (o6, g6) = classify(r.try_borrow::<A>());
-    assert!(o6 == Outcome::Granted && g6.unwrap().0 == x, "what was written through the exclusive guard is what later readers see");
+    {
+        let (o1, g1) = classify(r.try_borrow_mut::<A>());
+        assert!(o1 == Outcome::Granted);
+        let mut g1 = g1.unwrap();
+        assert!(g1.0 == a);
+        let (o2, _) = classify(r.try_borrow::<A>());
+        assert!(o2 == Outcome::ConflictImm, "a shared guard must be refused while the exclusive guard is alive");
+        let (o3, _) = classify(r.try_borrow_mut::<A>());
+        assert!(o3 == Outcome::ConflictMut, "a second exclusive guard must be refused");
+        let (o4, _) = classify(r.try_get_value::<A>());
+        assert!(o4 == Outcome::ConflictImm, "value reads go through the same flag");
+        assert!(r.set_value::<A>(x).is_none(), "set_value must not bypass the exclusive guard");
+        let (o5, g5) = classify(r.try_borrow::<B>());
+        assert!(o5 == Outcome::Granted && g5.unwrap().0 == b, "guards for different types must not interfere");
+        g1.0 = x;
+        drop(g1);
+        let (o6, g6) = classify(r.try_borrow::<A>());
+        assert!(o6 == Outcome::Granted && g6.unwrap().0 == x, "what was written through the exclusive guard is what later readers see");
+    }
     std::mem::forget(r);
 }
 
@@ -105,12 +109,14 @@ pub fn c02_scopes_do_not_interfere() {
     r.insert(A(a0));
     let mut r = r.into_child();
     r.insert(A(a1));
-    let (o1, g1) = classify(r.try_borrow_mut::<A>());
-    assert!(o1 == Outcome::Granted && g1.as_ref().unwrap().0 == a1, "the innermost A is the one borrowed");
-    let (o2, g2) = classify(r.parent().unwrap().try_borrow_mut::<A>());
-    assert!(o2 == Outcome::Granted && g2.as_ref().unwrap().0 == a0, "the same type in another scope must not interfere");
-    drop(g1);
-    drop(g2);
+    {
+        let (o1, g1) = classify(r.try_borrow_mut::<A>());
+        assert!(o1 == Outcome::Granted && g1.as_ref().unwrap().0 == a1, "the innermost A is the one borrowed");
+        let (o2, g2) = classify(r.parent().unwrap().try_borrow_mut::<A>());
+        assert!(o2 == Outcome::Granted && g2.as_ref().unwrap().0 == a0, "the same type in another scope must not interfere");
+        drop(g1);
+        drop(g2);
+    }
     std::mem::forget(r);
 }
 
@@ -119,8 +125,10 @@ pub fn c02_scopes_do_not_interfere() {
 #[cfg_attr(kani, kani::proof)] #[cfg_attr(kani, kani::unwind(5))]
 pub fn c02_absent_is_not_found() {
     let (r, _, _) = reg_ab();
-    assert!(classify(r.try_borrow::<C>()).0 == Outcome::NotFound);
-    assert!(classify(r.try_borrow_mut::<C>()).0 == Outcome::NotFound);
+    {
+        assert!(classify(r.try_borrow::<C>()).0 == Outcome::NotFound);
+        assert!(classify(r.try_borrow_mut::<C>()).0 == Outcome::NotFound);
+    }
     std::mem::forget(r);
 }
 
